@@ -9,6 +9,7 @@ Results are appended to mutants/results.jsonl. /repo is always restored (git che
 import json, os, subprocess, sys, time
 
 VERIF = os.path.dirname(os.path.dirname(os.path.abspath(__file__)))
+os.environ["VERIF_EVIDENCE_DIR"] = "/tmp/verif-sensitivity-evidence"  # never overwrite the unchanged tree's evidence
 REPO = "/repo"
 
 
